@@ -317,7 +317,13 @@ func doReplay(w *World, pr *PropRun, fl *Failure) (path string, confirmed bool, 
 		}
 	}
 	if !ranFamily {
-		if ok, detail := runSearchHarness(fl.O.ID); detail != nil {
+		searchID := fl.O.ID
+		if fl.Kind == "orphaned" && strings.HasPrefix(searchID, "orphaned:") {
+			// the contract no longer fits the function (e.g. a loop was added): nothing is decided deductively, but the search
+			// harnesses of that function's obligation families can still look for a failing input on the real code
+			searchID = strings.TrimSuffix(strings.TrimPrefix(searchID, "orphaned:"), ":") + "#orphaned"
+		}
+		if ok, detail := runSearchHarness(searchID); detail != nil {
 			for k, v := range detail {
 				content[k] = v
 			}
